@@ -160,13 +160,23 @@ class DataflowAnalysisAttacher(Transformer):
 
         return self.visit_Node(o, live_symbols=_live, defines_symbols=_defines, uses_symbols=_uses, **kwargs)
 
+    def _query_free_variables(self, expr):
+        """
+        The variables that occur in :data:`expr`, not counting the object whose memory
+        properties are merely queried by ``size``, ``lbound``, ``ubound`` or ``present``
+
+        Only that very occurrence is skipped: other occurrences of the same variable,
+        further arguments of the query and the subscripts of the queried object are reads.
+        """
+        mem_calls = [i for i in FindInlineCalls(unique=False).visit(expr) if i.function in self._mem_property_queries]
+        queried = [i.parameters[0] for i in mem_calls if i.parameters]
+        return OrderedSet(v for v in FindVariables(unique=False).visit(expr) if not any(v is q for q in queried))
+
     def visit_Loop(self, o, **kwargs):
         # A loop defines the induction variable for its body before entering it
         live = kwargs.pop('live_symbols', OrderedSet())
-        mem_calls = as_tuple(i for i in FindInlineCalls().visit(o.bounds) if i.function in self._mem_property_queries)
-        query_args = as_tuple(flatten(FindVariables().visit(i.parameters) for i in mem_calls))
-        uses = self._symbols_from_expr(o.bounds)
-        uses = OrderedSet(v for v in uses if not v in query_args)
+        # exclude arguments to functions that just check the memory attributes of a variable
+        uses = self._symbols_from_expr(as_tuple(self._query_free_variables(o.bounds)))
         body, defines, uses = self._visit_body(o.body, live=live|{o.variable.clone()}, uses=uses, **kwargs)
         o._update(body=body)
         # Make sure the induction variable is not considered outside the loop
@@ -186,9 +196,7 @@ class DataflowAnalysisAttacher(Transformer):
         live = kwargs.pop('live_symbols', OrderedSet())
 
         # exclude arguments to functions that just check the memory attributes of a variable
-        mem_call = as_tuple(i for i in FindInlineCalls().visit(o.condition) if i.function in self._mem_property_queries)
-        query_args = as_tuple(flatten(FindVariables().visit(i.parameters) for i in mem_call))
-        cset = OrderedSet(v for v in FindVariables().visit(o.condition) if not v in query_args)
+        cset = self._query_free_variables(o.condition)
 
         if not self.include_literal_kinds:
             # Filter out any symbols used to qualify literals e.g. 0._JPRB
@@ -206,13 +214,8 @@ class DataflowAnalysisAttacher(Transformer):
         live = kwargs.pop('live_symbols', OrderedSet())
 
         # exclude arguments to functions that just check the memory attributes of a variable
-        mem_calls = as_tuple(i for i in FindInlineCalls().visit(o.expr) if i.function in self._mem_property_queries)
-        query_args = as_tuple(flatten(FindVariables().visit(i.parameters) for i in mem_calls))
-        eset = OrderedSet(v for v in FindVariables().visit(o.expr) if not v in query_args)
-
-        mem_calls = as_tuple(i for i in FindInlineCalls().visit(o.values) if i.function in self._mem_property_queries)
-        query_args = as_tuple(flatten(FindVariables().visit(i.parameters) for i in mem_calls))
-        vset = OrderedSet(v for v in FindVariables().visit(o.values) if not v in query_args)
+        eset = self._query_free_variables(o.expr)
+        vset = self._query_free_variables(o.values)
 
         uses = self._symbols_from_expr(as_tuple(eset)) | self._symbols_from_expr(as_tuple(vset))
         body = ()
@@ -256,9 +259,7 @@ class DataflowAnalysisAttacher(Transformer):
 
     def visit_Assignment(self, o, **kwargs):
         # exclude arguments to functions that just check the memory attributes of a variable
-        mem_calls = as_tuple(i for i in FindInlineCalls().visit(o.rhs) if i.function in self._mem_property_queries)
-        query_args = as_tuple(flatten(FindVariables().visit(i.parameters) for i in mem_calls))
-        rset = OrderedSet(v for v in FindVariables().visit(o.rhs) if not v in query_args)
+        rset = self._query_free_variables(o.rhs)
 
         if not self.include_literal_kinds:
             # Filter out any symbols used to qualify literals e.g. 0._JPRB
